@@ -178,6 +178,13 @@ def main():
             distinct.update(key)
         elif key is not None:
             distinct.add(key)
+    # operations both sides refused to interpret (harness artefacts such as
+    # tokens naming objects whose creation was rejected): kept visible
+    bad_ops = {}
+    for rec in records:
+        for o, a in zip(rec["case"]["ops"], rec["impl"]):
+            if a == "bad-op":
+                bad_ops[o[0]] = bad_ops.get(o[0], 0) + 1
     for site, fail in known_seen.items():
         print(f"KNOWN-FINDING: property={prop} {known[site]['what']}")
 
@@ -245,6 +252,7 @@ def main():
         "disagreements_checked": len(disagreements),
         "distribution": dict(sorted(dist.items())),
         "gen_files_changed_this_run": changed,
+        "uninterpreted_operations": bad_ops,
         "broken_obligations": [b["name"] for b in broken],
         "search_cases": searched,
         "exhaustive": bool(getattr(mod, "EXHAUSTIVE", {}).get(args.tier)),
